@@ -285,9 +285,9 @@ func (g *Gen) genTx(fam string) *world.TxJSON {
 		}
 		return g.tx(caller, c, spec.FnClaimRewards, args, g.gas(g.nodeOf(caller), "ClaimDeveloperRewards", 0), g.callTypeFor(caller, caller))
 	case "username":
-		caller := g.W.U.DNS[g.R.Intn(len(g.W.U.DNS))]
-		if g.R.Intn(4) == 0 {
-			caller = g.anyAccount()
+		caller := g.anyAccount()
+		if len(g.W.U.DNS) > 0 && g.R.Intn(4) != 0 {
+			caller = g.W.U.DNS[g.R.Intn(len(g.W.U.DNS))]
 		}
 		args := [][]byte{g.randBytes(10)}
 		if g.R.Intn(12) == 0 {
@@ -342,7 +342,11 @@ func (g *Gen) genTx(fam string) *world.TxJSON {
 // 3n+c small modulo 2^64, nine-byte values whose low word is small.
 func (g *Gen) advCount(real int) []byte {
 	third := new(big.Int).Div(new(big.Int).Lsh(big.NewInt(1), 64), big.NewInt(3)) // 0x5555...55
-	switch g.R.Intn(7) {
+	switch g.R.Intn(9) {
+	case 7:
+		return big.NewInt(1 << 20).Bytes() // a moderate count: an allocation proportional to it is visible, not fatal
+	case 8:
+		return big.NewInt(1 << 26).Bytes()
 	case 0:
 		return []byte{}
 	case 1:
